@@ -1,6 +1,224 @@
-(* GrammarFacts.v — lemmas about detect_from / add_line (C15, C18). *)
-Require Import Txtpp.Str Txtpp.Consts Txtpp.Grammar.
+(* GrammarFacts.v — the documented grammar (README "Syntax") as theorems about
+   detect_from / add_line (C15), and absence of panics in add_line (C18).
+   Statements fixed before the proofs were written; nothing is admitted. *)
+Require Import Txtpp.Str Txtpp.Consts Txtpp.Grammar Txtpp.proofs.StrFacts.
 From Coq Require Import Lia.
 
 Lemma add_line_single_stop d l : multi (d_ty d) = false -> add_line d l = AddStop.
 Proof. intros H. unfold add_line. now rewrite H. Qed.
+
+(* the names, as documented: (empty), include, after, run, temp, tag, write *)
+Definition documented_name (n : str) : option dtype :=
+  if str_eqb n [] then Some DEmpty
+  else if str_eqb n [105;110;99;108;117;100;101] then Some DInclude   (* include *)
+  else if str_eqb n [97;102;116;101;114] then Some DAfter              (* after *)
+  else if str_eqb n [114;117;110] then Some DRun                       (* run *)
+  else if str_eqb n [116;101;109;112] then Some DTemp                  (* temp *)
+  else if str_eqb n [116;97;103] then Some DTag                        (* tag *)
+  else if str_eqb n [119;114;105;116;101] then Some DWrite             (* write *)
+  else None.
+Lemma dtype_of_name_documented n : dtype_of_name n = documented_name n.
+Proof.
+  unfold dtype_of_name, documented_name, c_name_table. cbn [lookup_name].
+  unfold str, byte in *.
+  repeat match goal with
+  | |- context [str_eqb n ?k] =>
+    let E := fresh "E" in
+    destruct (str_eqb n k) eqn:E; [apply str_eqb_eq in E; subst n; reflexivity|]
+  end.
+  reflexivity.
+Qed.
+Lemma multi_documented t :
+  multi t = match t with DInclude | DAfter | DTag => false | _ => true end.
+Proof. destruct t; reflexivity. Qed.
+Lemma txtpp_hash_documented : TXTPP_HASH = [84; 88; 84; 80; 80; 35].   (* "TXTPP#" *)
+Proof. reflexivity. Qed.
+
+Lemma skipn_app_exact2 (A : Type) (a b c : list A) :
+  skipn (length a + length b) (a ++ b ++ c) = c.
+Proof. rewrite <- app_length, app_assoc. apply skipn_app_exact. Qed.
+Lemma trim_nil : trim [] = [].
+Proof. reflexivity. Qed.
+
+(* A line starts a directive iff, after its leading white space, the first TXTPP# on the line is
+   immediately followed by one of the names and then a space or the end of the line; the text before
+   it is the prefix and the trimmed rest is the first argument. *)
+Theorem detect_from_iff l d :
+  detect_from l = Some d <->
+  exists ws p name rest,
+    l = ws ++ p ++ TXTPP_HASH ++ name ++ rest /\
+    AllWs ws /\ ws_len (p ++ TXTPP_HASH ++ name ++ rest) = 0%nat /\
+    (forall j, (j < length p)%nat -> ~ occurs_at TXTPP_HASH (p ++ TXTPP_HASH ++ name ++ rest) j) /\
+    ~ In SPb name /\ (rest = [] \/ exists r', rest = SPb :: r') /\
+    exists t, documented_name name = Some t /\
+    d = mkD ws p t [trim (tl rest)].
+Proof.
+  split.
+  - intros H. unfold detect_from in H.
+    destruct (split_ws l) as [ws rest0] eqn:Esw.
+    apply split_ws_spec in Esw as (-> & Hws & H0).
+    destruct (find_sub TXTPP_HASH rest0) as [i|] eqn:Ef; [|discriminate].
+    apply find_sub_spec in Ef as [Hocc Hmin].
+    destruct Hocc as (p & tail & -> & Hi). subst i.
+    rewrite firstn_app_exact, skipn_app_exact2 in H.
+    destruct (split_once_sp tail) as [[n a]|] eqn:Es.
+    + apply split_once_sp_spec in Es as [-> Hn].
+      cbv beta iota in H.
+      destruct (dtype_of_name n) as [t|] eqn:Et; [|discriminate]. injection H as <-.
+      exists ws, p, n, (SPb :: a).
+      split; [reflexivity|]. split; [assumption|]. split; [assumption|].
+      split; [exact Hmin|]. split; [assumption|].
+      split; [right; eexists; reflexivity|].
+      exists t. split; [now rewrite <- dtype_of_name_documented | reflexivity].
+    + apply split_once_sp_none in Es.
+      cbv beta iota in H.
+      destruct (dtype_of_name tail) as [t|] eqn:Et; [|discriminate]. injection H as <-.
+      exists ws, p, tail, []. rewrite app_nil_r.
+      split; [reflexivity|]. split; [assumption|]. split; [assumption|].
+      split; [exact Hmin|]. split; [assumption|].
+      split; [now left|].
+      exists t. split; [now rewrite <- dtype_of_name_documented | reflexivity].
+  - intros (ws & p & name & rest & -> & Hws & H0 & Hmin & Hn & Hrest & t & Ht & ->).
+    unfold detect_from.
+    rewrite (split_ws_app ws _ Hws H0). cbv beta iota zeta.
+    assert (Ef : find_sub TXTPP_HASH (p ++ TXTPP_HASH ++ name ++ rest) = Some (length p)).
+    { apply find_sub_spec. split; [|exact Hmin]. exists p, (name ++ rest). auto. }
+    rewrite Ef. rewrite firstn_app_exact, skipn_app_exact2.
+    rewrite <- dtype_of_name_documented in Ht.
+    destruct Hrest as [-> | [r' ->]].
+    + rewrite app_nil_r. rewrite (proj2 (split_once_sp_none name) Hn).
+      rewrite Ht. reflexivity.
+    + rewrite (proj2 (split_once_sp_spec _ name r') (conj eq_refl Hn)).
+      rewrite Ht. reflexivity.
+Qed.
+
+Lemma repeat_sp_length n : length (repeat_sp n) = n.
+Proof. apply repeat_length. Qed.
+Lemma repeat_sp_utf8 n : utf8_valid (repeat_sp n) = true.
+Proof. induction n as [|n IH]; [reflexivity|]. exact IH. Qed.
+Lemma slice_from_spaces n a :
+  utf8_valid (repeat_sp n ++ a) = true -> slice_from n (repeat_sp n ++ a) = Some a.
+Proof.
+  intros H. pose proof (slice_from_app (repeat_sp n) a H (repeat_sp_utf8 n)) as Hs.
+  now rewrite repeat_sp_length in Hs.
+Qed.
+Lemma slice_prefix_or_spaces pre rem :
+  utf8_valid rem = true -> utf8_valid pre = true ->
+  starts_with pre rem || starts_with (repeat_sp (length pre)) rem = true ->
+  exists a, slice_from (length pre) rem = Some a /\
+            (rem = pre ++ a \/ rem = repeat_sp (length pre) ++ a).
+Proof.
+  intros Hrem Hpre H. apply orb_true_iff in H as [H|H]; apply starts_with_iff in H as [a ->]; exists a.
+  - split; [now apply slice_from_app | now left].
+  - split; [now apply slice_from_spaces | now right].
+Qed.
+
+(* A following line continues a run/temp/write/empty directive iff it starts with the identical leading
+   white space followed by the same prefix, or by as many spaces as the prefix is long (in bytes), or consists
+   of the prefix without its trailing white space; its remainder, right-trimmed, becomes the next argument. *)
+Theorem add_line_iff d l d' :
+  utf8_valid l = true -> utf8_valid (d_ws d) = true -> utf8_valid (d_prefix d) = true ->
+  (add_line d l = AddOk d' <->
+   multi (d_ty d) = true /\ exists rem,
+     l = d_ws d ++ rem /\
+     ((rem = trim_end (d_prefix d) /\ d' = push_arg d [])
+      \/ (rem <> trim_end (d_prefix d) /\
+          exists a, (rem = d_prefix d ++ a \/ rem = repeat_sp (length (d_prefix d)) ++ a) /\
+                    d' = push_arg d (trim_end a)))).
+Proof.
+  intros Hl Hws Hpre. unfold add_line. split.
+  - intros H. destruct (multi (d_ty d)) eqn:Em; cbn [negb] in H; [|discriminate].
+    split; [reflexivity|].
+    destruct (starts_with (d_ws d) l) eqn:Es; [|discriminate].
+    apply starts_with_iff in Es as [rem ->]. exists rem. split; [reflexivity|].
+    rewrite (slice_from_app _ _ Hl Hws) in H.
+    pose proof (utf8_valid_app_inv _ _ Hl Hws) as Hrem.
+    destruct (str_eqb rem (trim_end (d_prefix d))) eqn:Eq.
+    + apply str_eqb_eq in Eq. injection H as <-. left. auto.
+    + right. split.
+      { intros Hc. apply str_eqb_eq in Hc. congruence. }
+      destruct (starts_with (d_prefix d) rem || starts_with (repeat_sp (length (d_prefix d))) rem) eqn:Eo;
+        [|discriminate].
+      destruct (slice_prefix_or_spaces _ _ Hrem Hpre Eo) as (a & Hs & Ha).
+      rewrite Hs in H. injection H as <-. exists a. auto.
+  - intros (Em & rem & -> & Hcase). rewrite Em. cbn [negb].
+    assert (Es : starts_with (d_ws d) (d_ws d ++ rem) = true).
+    { apply starts_with_iff. now exists rem. }
+    rewrite Es. rewrite (slice_from_app _ _ Hl Hws).
+    pose proof (utf8_valid_app_inv _ _ Hl Hws) as Hrem.
+    destruct Hcase as [[-> ->] | (Hne & a & Ha & ->)].
+    + now rewrite str_eqb_refl.
+    + destruct (str_eqb rem (trim_end (d_prefix d))) eqn:Eq.
+      { apply str_eqb_eq in Eq. contradiction. }
+      destruct Ha as [-> | ->].
+      * assert (E1 : starts_with (d_prefix d) (d_prefix d ++ a) = true).
+        { apply starts_with_iff. now exists a. }
+        rewrite E1. cbn [orb]. now rewrite (slice_from_app _ _ Hrem Hpre).
+      * assert (E1 : starts_with (repeat_sp (length (d_prefix d)))
+                       (repeat_sp (length (d_prefix d)) ++ a) = true).
+        { apply starts_with_iff. now exists a. }
+        rewrite E1, orb_true_r. now rewrite (slice_from_spaces _ _ Hrem).
+Qed.
+
+(* the byte-offset slices of add_line never panic on UTF-8 text (directive_add_line.rs:17-30) *)
+Theorem add_line_no_panic d l :
+  utf8_valid l = true -> utf8_valid (d_ws d) = true -> utf8_valid (d_prefix d) = true ->
+  add_line d l <> AddPanic.
+Proof.
+  intros Hl Hws Hpre. unfold add_line.
+  destruct (negb (multi (d_ty d))); [discriminate|].
+  destruct (starts_with (d_ws d) l) eqn:Es; [|discriminate].
+  apply starts_with_iff in Es as [rem ->].
+  rewrite (slice_from_app _ _ Hl Hws).
+  pose proof (utf8_valid_app_inv _ _ Hl Hws) as Hrem.
+  destruct (str_eqb rem (trim_end (d_prefix d))); [discriminate|].
+  destruct (starts_with (d_prefix d) rem || starts_with (repeat_sp (length (d_prefix d))) rem) eqn:Eo;
+    [|discriminate].
+  destruct (slice_prefix_or_spaces _ _ Hrem Hpre Eo) as (a & Hs & _).
+  rewrite Hs. discriminate.
+Qed.
+
+(* directives detected on UTF-8 lines have UTF-8 white space, prefix and argument,
+   and add_line preserves that: the hypotheses above hold along every run *)
+Theorem detect_from_utf8 l d :
+  utf8_valid l = true -> detect_from l = Some d ->
+  utf8_valid (d_ws d) = true /\ utf8_valid (d_prefix d) = true.
+Proof.
+  intros Hl H. apply detect_from_iff in H
+    as (ws & p & name & rest & -> & Hws & _ & _ & _ & _ & t & _ & ->).
+  cbn [d_ws d_prefix]. pose proof (AllWs_utf8 ws Hws) as Hv.
+  split; [assumption|].
+  pose proof (utf8_valid_app_inv _ _ Hl Hv) as Hr.
+  change (TXTPP_HASH ++ name ++ rest) with (84 :: ([88; 84; 80; 80; 35] ++ name ++ rest)) in Hr.
+  now apply utf8_valid_prefix_ascii in Hr.
+Qed.
+
+Lemma add_line_push d l d' : add_line d l = AddOk d' -> exists a, d' = push_arg d a.
+Proof.
+  unfold add_line. intros H.
+  destruct (negb (multi (d_ty d))); [discriminate|].
+  destruct (starts_with (d_ws d) l); [|discriminate].
+  destruct (slice_from (length (d_ws d)) l) as [rem|]; [|discriminate].
+  destruct (str_eqb rem (trim_end (d_prefix d))).
+  { injection H as <-. now eexists. }
+  destruct (starts_with (d_prefix d) rem || starts_with (repeat_sp (length (d_prefix d))) rem);
+    [|discriminate].
+  destruct (slice_from (length (d_prefix d)) rem) as [a|]; [|discriminate].
+  injection H as <-. now eexists.
+Qed.
+Theorem add_line_keeps_ws_prefix d l d' :
+  add_line d l = AddOk d' -> d_ws d' = d_ws d /\ d_prefix d' = d_prefix d /\ d_ty d' = d_ty d.
+Proof. intros H. apply add_line_push in H as [a ->]. auto. Qed.
+(* a detected directive always has exactly one argument, so `temp` always has a path argument
+   (the "no export file path" branch of pp/mod.rs:324-330 is dead) *)
+Theorem detect_from_one_arg l d : detect_from l = Some d -> exists a, d_args d = [a].
+Proof.
+  intros H. apply detect_from_iff in H
+    as (ws & p & name & rest & _ & _ & _ & _ & _ & _ & t & _ & ->).
+  now eexists.
+Qed.
+Theorem add_line_args_nonempty d l d' : add_line d l = AddOk d' -> d_args d <> [] -> d_args d' <> [].
+Proof.
+  intros H _. apply add_line_push in H as [a ->]. cbn [push_arg d_args].
+  intros Hc. apply app_eq_nil in Hc as [_ Hc]. discriminate.
+Qed.
